@@ -10,3 +10,17 @@ package soyjs
 //@   modifies *
 //@   loop 0
 //@     bag new
+
+// C13: map literals are emitted in sorted key order.
+//@ func (*state).walk
+//@   props C13
+//@   nosafety
+//@   modifies *
+//@   loop 1
+//@     bag keys[:i]
+
+// C13: a value is turned into literal nodes the same way whatever order the map is visited in.
+//@ func (*state).nodeFromValue
+//@   props C13
+//@   nosafety
+//@   pure
